@@ -3,6 +3,7 @@
 import Driver.C03
 import Driver.C11
 import RelicVerif.Model.ParamBase
+import RelicVerif.Model.ParamSel
 import RelicVerif.Gen.Params
 
 namespace Driver.C18
@@ -98,6 +99,53 @@ def handle (ep : Option C03.Env) (w : Nat) (op : String) (args : List String) (g
       some { model := got, spec := [if lhs == rhs && short then got else "k0, k1 with k*G = k0*G + k1*psi(G), |k0|,|k1| < 2^" ++ toString half],
              tags := ["glv", if k0 < 0 then "k0-" else "k0+", if k1 < 0 then "k1-" else "k1+"] }
     | _ => some { model := got, spec := ["two integers"], tags := ["glv.parse"] }
+  | _, _ => none
+
+/-! ### selection by identifier (`fp_sel`, `ep_sel`): unsupported identifiers are reported and install nothing (C08) -/
+
+private def kvs (got : String) : List (String × String) :=
+  (got.splitOn " ").filterMap fun t => match t.splitOn "=" with
+    | [k, v] => some (k, v)
+    | _ => none
+
+private def hexOr0 (s : String) : Nat := (parseHexNat s).getD 0
+
+/-- raw_print of the `used` digits of a positive integer -/
+private def fmtUsed (w n : Nat) : String := if n = 0 then "0" else natToHexPad n (((Nat.log2 n) / w + 1) * (w / 4))
+
+def handleSel (w : Nat) (op : String) (args : List String) (got : String) : Option Verdict :=
+  match op, args with
+  | "fp_sel", [ids] => do
+    let id ← ids.toInt?
+    let kv := kvs got
+    let id0s ← kv.lookup "id0"
+    let p0s ← kv.lookup "p0"
+    let id0 ← id0s.toInt?
+    let st : FieldSel := { id := id0.toNat, prime := hexOr0 p0s }
+    -- identifiers are small non-negative enumerators; anything else has no table entry
+    let (st', okk) := if id < 0 then (st, false) else selectField Params.fields st id.toNat
+    let line := if okk then
+        "id0=" ++ id0s ++ " p0=" ++ p0s ++ " res=ok id1=" ++ toString st'.id ++ " p1=" ++ natToHexPad st'.prime p0s.length
+      else "id0=" ++ id0s ++ " p0=" ++ p0s ++ " res=err id1=" ++ id0s ++ " p1=" ++ p0s
+    some { model := line, spec := [line], tags := [if okk then "fp_sel.ok" else "fp_sel.unsupported"] }
+  | "ep_sel", [ids] => do
+    let id ← ids.toInt?
+    let kv := kvs got
+    let id0s ← kv.lookup "id0"
+    let s0 ← kv.lookup "s0"
+    match s0.splitOn "," with
+    | [p0s, gx0, gy0, n0] =>
+      let st : CurveSel := { prime := hexOr0 p0s, gx := hexOr0 gx0, gy := hexOr0 gy0, r := hexOr0 n0 }
+      let (st', okk) := if id < 0 then (st, false) else selectCurve Params.fields Params.curves st id.toNat
+      if okk then
+        let line := "id0=" ++ id0s ++ " s0=" ++ s0 ++ " res=ok id1=" ++ ids ++ " s1=" ++ natToHexPad st'.prime p0s.length ++ "," ++
+          natToHex st'.gx ++ "," ++ natToHex st'.gy ++ "," ++ fmtUsed w st'.r
+        some { model := line, spec := [line], tags := ["ep_sel.ok"] }
+      else
+        -- the code clears the identifier before it looks the parameter up; the property only asks for the report and an unchanged curve
+        let line (i : String) := "id0=" ++ id0s ++ " s0=" ++ s0 ++ " res=err id1=" ++ i ++ " s1=" ++ s0
+        some { model := line "0", spec := [line "0", line id0s], tags := ["ep_sel.unsupported"] }
+    | _ => some { model := "", spec := ["id0= s0=p,gx,gy,n …"], tags := ["ep_sel.parse"] }
   | _, _ => none
 
 end Driver.C18
